@@ -1121,6 +1121,10 @@ class MarkovChainMonteCarloMethod:
                         adapters=stage.adapters,
                         **common_kwargs,
                     )
+                    if isinstance(exception, KeyboardInterrupt):
+                        # Adaptation in an interrupted stage is incomplete (possibly for
+                        # only some of the chains) so adapters are not finalized
+                        return MCMCSampleChainsOutputs(chain_states, traces, stats)
                     if len(adapter_states) > 0:
                         _finalize_adapters(
                             adapter_states,
@@ -1131,8 +1135,6 @@ class MarkovChainMonteCarloMethod:
                         )
                     if stage.trace_funcs is not None or stage.record_stats:
                         sampling_index_offset += stage.n_iter
-                    if isinstance(exception, KeyboardInterrupt):
-                        return MCMCSampleChainsOutputs(chain_states, traces, stats)
         return MCMCSampleChainsOutputs(chain_states, traces, stats)
 
 
